@@ -130,7 +130,16 @@ func printMsg(b *strings.Builder, m *Message, pkg, ind string) {
 		case Map:
 			tn = fmt.Sprintf("map<%s, %s>", KindName(f.MapKey), tn)
 		}
-		fmt.Fprintf(b, "%s%s%s %s = %d%s;\n", ind, pre, tn, f.Name, f.Num, annText(&f.Ann))
+		at := annText(&f.Ann)
+		if f.JSON != "" {
+			jn := fmt.Sprintf("json_name = %q", f.JSON)
+			if at == "" {
+				at = " [" + jn + "]"
+			} else {
+				at = strings.Replace(at, " [", " ["+jn+", ", 1)
+			}
+		}
+		fmt.Fprintf(b, "%s%s%s %s = %d%s;\n", ind, pre, tn, f.Name, f.Num, at)
 	}
 	for _, f := range m.Fields {
 		if f.Oneof == 0 {
